@@ -221,7 +221,7 @@ def run(ctx):
             if idx % 3 == 1:
                 apis.append("grad")
             for api in apis:
-                jobs.append({"case": case, "api": api, "seed": ctx.seed, "start": (0.0, 0.5, -0.75)[idx % 3],
+                jobs.append({"case": case, "api": api, "seed": ctx.seed, "start": (0.0, 0.5, -0.75)[(idx + idx // 3) % 3],     # (not idx % 3: the APIs are chosen by that)
                              "trigger": trig, "devrecs": devrec.get(ckey(case)) if trig else None})
             if all(c[4] == "int" for c in case["ctl"]) and not case["edims"]:
                 ints.append(case)
